@@ -297,8 +297,57 @@ func buildC05(tier string) *core.Plan {
 			c.Outcome("format-as-specified")
 		}}
 
+	// several inputs: without -f and -o the format is that of the FIRST input's (possibly virtual) extension
+	type multiCase struct{ First, Second string; SkipP bool }
+	var multi []multiCase
+	for _, a := range c05Formats {
+		for _, b := range c05Formats {
+			for _, sp := range []bool{false, true} {
+				multi = append(multi, multiCase{a, b, sp})
+			}
+		}
+	}
+	multiSpace := core.Space{Name: "cli-format-from-first-input", N: int64(len(multi)),
+		Desc: func(i int64) any { return multi[i] },
+		Run: func(c *core.Ctx, i int64) {
+			mc := multi[i]
+			dir := scratchDir()
+			defer os.RemoveAll(dir)
+			if writeDoc(dir, "one.yaml", "yaml", map[string]any{"a": 1, "s": "yes"}) != nil || writeDoc(dir, "two.toml", "toml", map[string]any{"b": 2}) != nil {
+				return
+			}
+			var args []string
+			if mc.SkipP {
+				args = append(args, "-P")
+			}
+			args = append(args, "one."+mc.First, "two."+mc.Second)
+			c.Eval()
+			c.Trans(2)
+			so, se, code, err := runTool(dir, "bkl", args...)
+			wit := "bkl " + strings.Join(args, " ")
+			c.Validated()
+			c.Nontrivial()
+			if err != nil || code != 0 {
+				c.Fail("format-selection", "cli-fails", wit, se)
+				return
+			}
+			p := newParser()
+			if p.MergeFileLayers(filepath.Join(dir, "one.yaml")) != nil || p.MergeFileLayers(filepath.Join(dir, "two.toml")) != nil {
+				return
+			}
+			lib, lerr := p.Output(mc.First)
+			if lerr != nil {
+				return
+			}
+			if so != string(lib) {
+				c.Outcome("WRONG-FORMAT-WRITTEN")
+				c.Fail("format-selection", "bytes-differ-from-expected-format", wit, map[string]any{"expected_format": mc.First, "written": so, "library": string(lib)})
+				return
+			}
+			c.Outcome("format-as-specified")
+		}}
 	return &core.Plan{
-		Spaces: []core.Space{roundTrip, cliSpace},
+		Spaces: []core.Space{roundTrip, cliSpace, multiSpace},
 		Rule: "every single-document stream built from 64 look-alike strings (as root, key, value, list entry, nested), 12 boundary numbers, bools and empty containers; all trees up to 3 nodes over a reduced look-alike alphabet; every stream of 2-4 documents over an 8-document pool; " +
 			"each in all 6 output formats (TOML: map-rooted only); CLI matrix -f x -o extension x (virtual) input extension x real format",
 		Assumptions: []string{"decode(encode(docs)) is compared by value (2.0 may read back as 2) with bkl's decoder, with a fresh Parser loading the bytes as a file, and with Python json / PyYAML under a YAML 1.2 core-schema resolver / tomllib",
